@@ -359,9 +359,19 @@ fn ex_ed25519(n: &mut Net, out: &mut RunOut, tier: Tier) {
     let bd = bounds_of!(crrl::ed25519::Scalar, crrl::field::GF25519);
     let sp = coord_sign_specials(&bd.field_m1, 32, &<crate::world::suite::Ed25519 as crate::world::suite::Suite>::bad_points());
     let (pk2, msg2) = (n.pointish(out, &pk_enc, &sp), n.field(out, &msg));
+    // points related to the public key A, for the R field: A, -A, 2A, the generator (the verification equation
+    // then adds / subtracts equal or opposite points)
+    let mut sp_r = sp.clone();
+    {
+        use crrl::ed25519::Point;
+        let a = sk.public_key.point;
+        for q in [a, -a, a.double(), Point::BASE, -Point::BASE, a + Point::BASE] {
+            sp_r.push(q.encode().to_vec());
+        }
+    }
     let sig2 = if n.t.chance(1, 3) {
         // special encodings for R, boundary values for S
-        let r = n.pointish(out, &sig[..32], &sp);
+        let r = n.pointish(out, &sig[..32], &sp_r);
         let sv = n.structured(out, &sig[32..], &[(32, false)], &bd);
         [r, sv].concat()
     } else {
@@ -425,8 +435,16 @@ fn ex_ed448(n: &mut Net, out: &mut RunOut) {
     let bd = bounds_of!(crrl::ed448::Scalar, crrl::field::GF448);
     let sp = coord_sign_specials(&bd.field_m1, 57, &<crate::world::suite::Ed448 as crate::world::suite::Suite>::bad_points());
     let (pk2, msg2) = (n.pointish(out, &pk_enc, &sp), n.field(out, &msg));
+    let mut sp_r = sp.clone();
+    {
+        use crrl::ed448::Point;
+        let a = sk.public_key.point;
+        for q in [a, -a, a.double(), Point::BASE, -Point::BASE, a + Point::BASE] {
+            sp_r.push(q.encode().to_vec());
+        }
+    }
     let sig2 = if n.t.chance(1, 3) {
-        let r = n.pointish(out, &sig[..57], &sp);
+        let r = n.pointish(out, &sig[..57], &sp_r);
         let sv = n.structured(out, &sig[57..], &[(56, false), (1, false)], &bd);
         [r, sv].concat()
     } else {
@@ -697,7 +715,11 @@ macro_rules! ex_schnorr {
                 order_m1: (Scalar::ZERO - Scalar::ONE).encode().to_vec(),
                 field_m1: vec![0xFF; 32],
             };
-            let specials: Vec<Vec<u8>> = coord_sign_specials(&$fm1, 32, &[]);
+            let mut specials: Vec<Vec<u8>> = coord_sign_specials(&$fm1, 32, &[]);
+            // keys related to the parties' own keys: the own key, its negation, the other party's, the generator
+            for q in [ska.public_key.point, -ska.public_key.point, skb.public_key.point, -skb.public_key.point, Point::BASE, -Point::BASE, ska.public_key.point + skb.public_key.point] {
+                specials.push(q.encode().to_vec());
+            }
             let (pk2, data2) = (n.pointish(out, &pka, &specials), n.field(out, &data));
             let sig2 = n.structured(out, &sig, &[(16, false), (32, false)], &bd);
             match g!(out, concat!("call.", $name, ".PublicKey_decode"), hex_abbrev(&pk2), PublicKey::decode(&pk2)) {
@@ -849,7 +871,15 @@ fn ex_groups(n: &mut Net, out: &mut RunOut) {
         let m0 = n.rng.bytes(64);
         // two 32-byte halves, each mapped separately: boundary values (0, 1, p-1, p, ...) reach the map's exceptional cases
         let bdm = bounds_of!(crrl::ed25519::Scalar, crrl::field::GF25519);
-        let m = n.structured(out, &m0, &[(32, false), (32, false)], &bdm);
+        let mut m = n.structured(out, &m0, &[(32, false), (32, false)], &bdm);
+        if m.len() == 64 && n.t.chance(1, 12) {
+            // both halves equal (or equal up to the ignored top bit): the two mapped points are equal
+            let (a, b) = m.split_at_mut(32);
+            b.copy_from_slice(a);
+            if n.t.chance(1, 2) {
+                b[31] ^= 0x80;
+            }
+        }
         if m.len() == 64 {
             let r = g!(out, "call.ristretto255.one_way_map", hex(&m), Point::one_way_map(&m).encode());
             out.ev(format_args!("ristretto255 one_way_map -> {:?}", r.map(|e| hex(&e))));
@@ -883,7 +913,11 @@ fn ex_groups(n: &mut Net, out: &mut RunOut) {
         }
         let m0 = n.rng.bytes(112);
         let bdm = bounds_of!(crrl::ed448::Scalar, crrl::field::GF448);
-        let m = n.structured(out, &m0, &[(56, false), (56, false)], &bdm);
+        let mut m = n.structured(out, &m0, &[(56, false), (56, false)], &bdm);
+        if m.len() == 112 && n.t.chance(1, 12) {
+            let (a, b) = m.split_at_mut(56);
+            b.copy_from_slice(a);
+        }
         if m.len() == 112 {
             let r = g!(out, "call.decaf448.one_way_map", hex(&m), Point::one_way_map(&m).encode());
             out.ev(format_args!("decaf448 one_way_map -> {:?}", r.map(|e| hex(&e))));
